@@ -28,6 +28,8 @@ T9 = {
     "fileio/write_bin.h": ["write_bin"],
     "fileio/write_wdc.cpp": ["write_wdc", "write_int24"],
     "fileio/write_wdc.h": ["write_wdc", "write_int24"],
+    "fileio/write_uf2.cpp": ["write_uf2"],
+    "fileio/write_uf2.h": ["write_uf2"],
     "core/Macros.cpp": ["macros_expand_params"],
     "core/tokens.cpp": ["tokens_get", "tokens_unget_char"],
     "main/naken_asm.cpp": ["main", "output_hex_text"],
